@@ -4,12 +4,14 @@ import GoRes.Driver.Mux
 import GoRes.Driver.Subs
 import GoRes.Driver.Store
 import GoRes.Driver.Req
+import GoRes.Driver.Pool
 /-! `gores-driver <domain>`: one op line in, one line `model<TAB>spec<TAB>tag` out. -/
 open GoRes GoRes.Wire
 
 structure DState where
   mux : GoRes.Driver.Mux.St := {}
   store : GoRes.Driver.Store.St := {}
+  pool : GoRes.Driver.Pool.VSt := {}
 
 def stepLine (dom : String) (st : DState) (full : String) : DState × String :=
   -- a line is `op` or `op<TAB>implementation outcome`
@@ -31,6 +33,9 @@ def stepLine (dom : String) (st : DState) (full : String) : DState × String :=
       ({ st with store := ss }, m ++ "\t" ++ s ++ "\t" ++ t)
     | "req" | "req04" | "req05" | "req07" | "req08" =>
       let (m, s, t) := GoRes.Driver.Req.run dom args impl; (st, m ++ "\t" ++ s ++ "\t" ++ t)
+    | "pool" =>
+      let (ps, m, s, t) := GoRes.Driver.Pool.run st.pool args
+      ({ st with pool := ps }, m ++ "\t" ++ s ++ "\t" ++ t)
     | "subs" => let (m, s, t) := GoRes.Driver.Subs.run args impl; (st, m ++ "\t" ++ s ++ "\t" ++ t)
     | _ => (st, "bad-domain\t-\tbad")
 
